@@ -39,6 +39,14 @@ UNITS = [
 ]
 HERTZ_R1 = ("hertz", F(1), {"second": -1})
 HERTZ_R2 = ("hertz", F(1), {"[F]": 1})
+# the two registries also differ for a unit that a shared context redefines: derived in the first,
+# a base unit of its own dimension in the second (where redefining it must raise)
+STONE_R1 = ("stone", F(14), {"pound": 1})
+STONE_R2 = ("stone", F(1), {"[W]": 1})
+
+
+def units_of(second):
+    return UNITS + ([HERTZ_R2, STONE_R2] if second else [HERTZ_R1, STONE_R1])
 DIMS_COMMON = {"[V]": {"[L]": 1, "[T]": -1}, "[A]": {"[L]": 2}}
 DIMS_R1 = dict(DIMS_COMMON, **{"[F]": {"[T]": -1}})
 DIMS_R2 = dict(DIMS_COMMON)
@@ -68,6 +76,8 @@ CTX = {
     # a second redefinition-only context in conflict with rb (minute): without parameters, so the
     # two nesting orders [rb, rf] and [rf, rb] consist of the very same parameterised contexts
     "rf": dict(defaults={}, rules=[], redefs=[("minute", F(45), {"second": 1}), ("yard", F(7, 2), {"foot": 1})]),
+    # shared between the registries: valid in the first, invalid in the second (stone is a base unit there)
+    "rt": dict(defaults={}, rules=[], redefs=[("stone", F(10), {"pound": 1})]),
     "rs": dict(defaults={"k": F(2)}, rules=[("[F]", "[L]", F(1), ("k", True), {"meter": 1, "hertz": -1})],
                redefs=[]),
 }
@@ -92,7 +102,7 @@ def def_line(name, scale, ref):
 
 
 def registry_lines(second):
-    units = UNITS + [HERTZ_R2 if second else HERTZ_R1]
+    units = units_of(second)
     dims = DIMS_R2 if second else DIMS_R1
     lines = [def_line(*u) for u in units]
     lines += [f"{k} = " + " * ".join(f"{d} ** {e}" for d, e in v.items()) for k, v in dims.items()]
@@ -140,7 +150,7 @@ def cps(d):
 
 def coq_setup(qk):
     def table(second):
-        units = UNITS + [HERTZ_R2 if second else HERTZ_R1]
+        units = units_of(second)
         return "(mkut [" + "; ".join(f"({coq_str(n)}, {cud(s, r)})" for n, s, r in units) + "])"
 
     def cfg(second):
@@ -239,7 +249,7 @@ def coq_obs(ob, regs, it, ctx_names=("rc", "rs")):
         if o.get("answers") is not None:
             items.append(f"ObAns {b} " + it("A", "list answer", coq_list([coq_answer(a) for a in o['answers']])))
     cx = []
-    for name, (keys, defaults, checked) in sorted(ob.get("ctx", {}).items()):
+    for name, (keys, defaults, checked, *_rest) in sorted(ob.get("ctx", {}).items()):
         if name not in ctx_names:
             continue
         ks = coq_list([f"({cuc(a)}, {cuc(b)})" for a, b in keys])
@@ -320,6 +330,27 @@ def errclass(e):
 def cont(u):
     d = getattr(u, "_units", u)
     return {k: F(v) for k, v in d.items()}
+
+
+def canon(v):
+    """order- and address-free rendering of an attribute value of a Context object"""
+    import weakref
+    if isinstance(v, weakref.WeakValueDictionary):
+        return sorted(repr(k) for k in v.keys())
+    if isinstance(v, dict):
+        return sorted(((canon(k), canon(x)) for k, x in v.items()), key=repr)
+    if isinstance(v, (set, frozenset)):
+        return sorted((canon(x) for x in v), key=repr)
+    if isinstance(v, (list, tuple)):
+        return [canon(x) for x in v]
+    if callable(v):
+        return getattr(v, "__qualname__", type(v).__name__)
+    return repr(v)
+
+
+def ctx_attrs(c):
+    """every public and private attribute of a Context object"""
+    return {k: canon(v) for k, v in vars(c).items()}
 
 
 class Injected(Exception):
@@ -453,8 +484,8 @@ class World:
                 "answers": [self.ask(r, p) for p in probes] if sweep else None,
             }
         if ctx:
-            ob["ctx"] = {n: ([(cont(a), cont(b)) for a, b in self.ctx[n].funcs], dict(self.ctx[n].defaults), self.ctx[n].checked)
-                         for n in ctx}
+            ob["ctx"] = {n: ([(cont(a), cont(b)) for a, b in self.ctx[n].funcs], dict(self.ctx[n].defaults), self.ctx[n].checked,
+                             ctx_attrs(self.ctx[n])) for n in ctx}
         return ob
 
 
@@ -505,6 +536,8 @@ class Oracle:
         k = op[0]
         o0, o1 = ob0["regs"][r], ob1["regs"][r]
         if k in ("en", "with"):
+            if ctx0 is not None:
+                self.context_objects(op, ctx0, ctx1)
             if out[0] == "failed":
                 # whatever was raised: active stack, unit-table layers and answers must be as before
                 comps = ("active", "layers", "answers") if STRICT_LAYERS[0] else ("active", "answers")
@@ -524,14 +557,6 @@ class Oracle:
                 self.stack.append({"name": n, "snap": (o0["answers"], self.ndefs) if i == 0 and o0["answers"] is not None else None})
             if k == "with":
                 self.frames.append(len(op[1]))
-            if ctx0 is not None:
-                for n in ctx0:
-                    if ctx0[n][0] != ctx1[n][0]:
-                        self.report(f"shared-context-modified:funcs-keys:{n}",
-                                    f"activating {list(op[1])} rewrote the rule endpoints of Context {n}: {ctx0[n][0]} -> {ctx1[n][0]}",
-                                    taint=False)   # does not derail the reference stack: keep checking this run
-                    elif ctx0[n][1] != ctx1[n][1]:
-                        self.report(f"shared-context-modified:defaults:{n}", f"activating {list(op[1])} changed the defaults of Context {n}")
         elif k in ("dis", "exit", "raise"):
             if out[0] == "invalid":
                 return
@@ -564,6 +589,25 @@ class Oracle:
         if not self.stack and o1["answers"] is not None and k not in ("probe", "def"):
             # every context has been left: the answers must be those of the untouched registry
             self._compare_answers(self.pristine["answers"], 0, o1["answers"], "residue-at-empty")
+
+    def context_objects(self, op, ctx0, ctx1):
+        """Context objects are never modified by being activated: every attribute (public or not)
+        of every registered Context object has the same value after the call"""
+        for n in ctx0:
+            if ctx0[n][0] != ctx1[n][0]:
+                self.report(f"shared-context-modified:funcs-keys:{n}",
+                            f"activating {list(op[1])} rewrote the rule endpoints of Context {n}: {ctx0[n][0]} -> {ctx1[n][0]}",
+                            taint=False)   # does not derail the reference stack: keep checking this run
+            if ctx0[n][1] != ctx1[n][1]:
+                self.report(f"shared-context-modified:defaults:{n}", f"activating {list(op[1])} changed the defaults of Context {n}")
+                return
+            a0, a1 = ctx0[n][3], ctx1[n][3]
+            for attr in sorted(set(a0) | set(a1)):
+                if attr in ("funcs", "relation_to_context", "defaults") or a0.get(attr) == a1.get(attr):
+                    continue        # rule endpoints / defaults are reported above
+                self.report(f"shared-context-modified:{attr}:{n}",
+                            f"activating {list(op[1])} changed attribute {attr!r} of Context {n}: {str(a0.get(attr))[:200]} -> {str(a1.get(attr))[:200]}",
+                            taint=False)
 
     def stack_probe(self, world, o1, r=0):
         """Every answer depends only on the current stack (names and parameters, in order), not on
@@ -760,8 +804,8 @@ def valid_prefixes(alphabet, k=2):
 
 # ------------------------------------------------------------------ two registries sharing Context objects
 ALPHABET2 = [(r, op) for r in (0, 1) for op in
-             [("en", ("rs",), ()), ("with", ("rs",), kwt(k=3)), ("exit",), ("dis", None)]] + [(0, ("en", ("rc",), ())), (1, ("en", ("rb",), ()))]
-PROBES_W2 = [PROBES[0], PROBES[6], PROBES2[0]]
+             [("en", ("rs",), ()), ("with", ("rs",), kwt(k=3)), ("exit",), ("dis", None), ("en", ("rt",), ())]] + [(0, ("en", ("rc",), ()))]
+PROBES_W2 = [("root", U(stone=1)), PROBES[0], PROBES[6], PROBES2[0]]
 
 
 def run_world2(ops, project=None):
@@ -774,7 +818,7 @@ def run_world2(ops, project=None):
             steps.append(None)
             continue
         out = w.do(r, op)
-        steps.append((out, w.obs(regs=(0, 1), probes=PROBES_W2, ctx=("rs", "rc"))))
+        steps.append((out, w.obs(regs=(0, 1), probes=PROBES_W2, ctx=("rs", "rc", "rt"))))
     w.close()
     return steps
 
@@ -796,12 +840,19 @@ def explore2_subtree(args):
                     continue
                 a, b = st[1]["regs"][r], al[1]["regs"][r]
                 if st[0][:2] != al[0][:2] or a["answers"] != b["answers"] or a["active"] != b["active"]:
-                    other_first = [n for n in ("rs", "rc") if any(rr != r and n in op[1] for rr, op in seq[:i + 1] if op[0] in ("en", "with"))]
-                    diff = [probe_name(p) for p, x, y in zip(PROBES_W2, a["answers"], b["answers"]) if x != y]
-                    key = f"shared-context:interference:checked-by-other-registry:{'+'.join(other_first) or 'none'}"
-                    if key not in findings or len(findings[key][1]) > len(seq):
-                        findings[key] = (f"registry {r + 1} answers {diff or 'outcome'} differently when registry {2 - r} used the shared Context first: "
-                                         f"{[x for x in a['answers']]} vs alone {[x for x in b['answers']]}", [[rr, op_json(o)] for rr, o in seq])
+                    used_by_other = {n for rr, op in seq[:i] if rr != r and op[0] in ("en", "with") for n in op[1]}
+                    if st[0][:2] != al[0][:2] or a["active"] != b["active"]:
+                        names = sorted({n for n in seq[i][1][1] if n in used_by_other}) if seq[i][1][0] in ("en", "with") else []
+                        key = f"shared-context:interference:outcome:{'+'.join(names) or 'none'}"
+                        what = f"{seq[i][1]} ends {st[0][:2]} with active {a['active']}, alone {al[0][:2]} with active {b['active']}"
+                    else:
+                        diff = [probe_name(p) for p, x, y in zip(PROBES_W2, a["answers"], b["answers"]) if x != y]
+                        names = sorted({n for n in a["active"] if n in used_by_other})
+                        key = f"shared-context:interference:answer:{diff[0]}:{'+'.join(names) or 'none'}"
+                        what = f"answers {diff}: {a['answers']} vs alone {b['answers']}"
+                    if key not in findings or len(findings[key][1]) > i + 1:
+                        findings[key] = (f"registry {r + 1} behaves differently when registry {2 - r} used the shared Context object(s) first "
+                                         f"than with Context objects of its own: {what}", [[rr, op_json(o)] for rr, o in seq[:i + 1]])
                     break
         if len(seq) == len(prefix):
             above.extend(steps[:-1])
@@ -822,12 +873,12 @@ def explore2_subtree(args):
 
 # ------------------------------------------------------------------ random long sequences
 def random_ops(rng, n):
-    names = ["ra", "rb", "rc", "rf", "rd", "re"]
+    names = ["ra", "rb", "rc", "rf", "rt", "rd", "re"]
     ops = []
     for _ in range(n):
         x = rng.random()
         if x < 0.28:
-            cs = tuple(rng.choice(names[:4] if rng.random() < 0.8 else names) for _ in range(1 if rng.random() < 0.8 else 2))
+            cs = tuple(rng.choice(names[:5] if rng.random() < 0.8 else names) for _ in range(1 if rng.random() < 0.8 else 2))
             kw = rng.choice([(), (), kwt(n=5), kwt(k=3), kwt(n=2, k=7)])
             ops.append((rng.choice(["en", "with"]), cs, kw))
         elif x < 0.40:
